@@ -368,15 +368,13 @@ def run(ctx) -> None:
              "selection weight is not normalised by the group size", stmt="/(ib2-ib1)")
     gk = idx.function(DK, "Data_K.get_bands_in_range_groups_ik")
     r5.instance(gk.short)
-    clamp = [s for s in stmts(gk.node) if isinstance(s, ast.Assign) and is_name(s.targets[0], "bandmax")
-             and isinstance(s.value, ast.Call) and call_name(s.value) == "min"]
-    okc = len(clamp) == 1 and any(norm(a).replace(" ", "") == "bands_in_range[0][0]" for a in clamp[0].value.args)
-    r5.check(okc, "bands below the scan end where the first in-range group starts", gk, clamp[0] if clamp else gk.node,
-             f"the fully-occupied block [0, bandmax) is clamped with `{norm1(clamp[0].value) if clamp else '?'}` instead of the START "
-             f"of the first in-range group: lower members of a multi-band group straddling the lowest Fermi level are counted twice")
-    tg = norm(gk.node).replace(" ", "")
-    r5.check(("weights[0,bandmax]=-np.inf" in tg or "weights[(0,bandmax)]=-np.inf" in tg) and "ifbandmax>0:" in tg, "the below-scan block is [0, bandmax) with energy −inf", gk,
-             gk.node, "the below-scan block is no longer keyed (0, bandmax) with E = −inf", stmt="weights[(0, bandmax)]")
+    from .groups import check_completion_blocks
+    check_completion_blocks(r5, idx, gk, want=("sea",))
+    from .groups import completion_blocks
+    for _k, st_b, _S, _G, _alts, _ne in completion_blocks(idx, gk):
+        r5.check(norm(st_b.value).replace(" ", "") in ("-np.inf", "-numpy.inf", "-float('inf')", "float('-inf')", "-math.inf"),
+                 "the below-scan block carries the energy −inf (occupied for every Fermi level)", gk, st_b,
+                 f"the below-scan block is stored with `{norm1(st_b.value)}` instead of E = −inf")
     GKS = Sem(idx, gk)
     okmean = False
     for dc in [n for n in ast.walk(gk.node) if isinstance(n, ast.DictComp) and len(n.generators) == 1 and isinstance(n.generators[0].target, ast.Tuple)]:
